@@ -120,7 +120,13 @@ func checkEnvelope(kind string, v interface{}) (fails [][2]string, enc []byte, f
 		}
 	}
 	// (ii) real TCP transport receive path
-	rc := codec.Receive(append(append([]byte{}, b...), '\n'), 2)
+	rc := codec.Receive([]byte(string(b)+"\n"+between+"\n"), 3)
+	if n := len(rc.Envs); n >= 2 {
+		if m, ok := rc.Envs[1].(*lime.Message); !ok || m.ID != "between" || m.Metadata["other"] != "1" {
+			fail("transport-between:"+kind, "the envelope received after the encoding is not the one sent")
+		}
+		rc.Envs = append(rc.Envs[:1], rc.Envs[2:]...)
+	}
 	switch {
 	case rc.Panic != "":
 		fail("transport-panic:"+rc.Site, "transport Receive panicked on the library's own encoding: "+rc.Panic)
@@ -151,7 +157,19 @@ func checkEnvelope(kind string, v interface{}) (fails [][2]string, enc []byte, f
 		} else if d := codec.Diff(want, codec.Canon(td.Env)); d != "" {
 			fail("ws-send-roundtrip:"+d, fmt.Sprintf("what the websocket transport sent decodes to something that differs from the original at %s", d))
 		}
-		rw := codec.ReceiveWS([][]byte{ws[0], b}, 3)
+		// (a different envelope travels between the two copies: what was received earlier must not
+		// change when the same transport receives again)
+		rw := codec.ReceiveWS([][]byte{ws[0], []byte(between), b}, 4)
+		if len(rw.Envs) == 3 {
+			if m, ok := rw.Envs[1].(*lime.Message); !ok || m.ID != "between" || m.Metadata["other"] != "1" {
+				fail("ws-transport-between:"+kind, "the envelope received between the two copies is not the one sent")
+			}
+			rw.Envs = append(rw.Envs[:1], rw.Envs[2])
+		} else if len(rw.Envs) > 3 {
+			rw.Envs = rw.Envs[:3]
+		} else if len(rw.Envs) == 2 {
+			rw.Envs = rw.Envs[:1]
+		}
 		switch {
 		case rw.Panic != "":
 			fail("ws-transport-panic:"+rw.Site, "websocket transport Receive panicked on the library's own encoding: "+rw.Panic)
@@ -171,6 +189,8 @@ func checkEnvelope(kind string, v interface{}) (fails [][2]string, enc []byte, f
 	}
 	return
 }
+
+const between = `{"id":"between","from":"x@y.z/w","metadata":{"other":"1"},"type":"text/plain","content":"between"}`
 
 // ---- text forms ----
 
